@@ -142,6 +142,8 @@ R = {
     "sib_fragment_node_names": tiered(gaps.sib_fragment_node_names),
     "exc_fragment_strict": tiered(gaps.exc_fragment_strict),
     "prov_rdkit_sanitize": tiered(gaps.prov_rdkit_sanitize),
+    "ord_anchor_reset": tiered(gaps.ord_anchor_reset),
+    "idx_scan_bound": tiered(gaps.idx_scan_bound),
     "sent_numeric_attrs": tiered(extra.sent_numeric_attrs),
     "ord_complete_loops": tiered(extra.ord_complete_loops),
     "own_mutable_defaults_layout": named("own_mutable_defaults_layout", own.own_mutable_defaults, "quick", tuple(own.SKIP_MODULES), 2),
@@ -356,6 +358,8 @@ _GAP_RULES = {
     "sib_fragment_node_names": ["C08"],
     "exc_fragment_strict": ["C20"],
     "prov_rdkit_sanitize": ["C18"],
+    "ord_anchor_reset": ["C05", "C11", "C06", "C04"],      # repaired: silent on today's tree
+    "idx_scan_bound": ["C05", "C06", "C04"],               # repaired: silent on today's tree
 }
 for _rn, _pids in _GAP_RULES.items():
     for _pid in _pids:
